@@ -1756,3 +1756,83 @@ func c15SetMachineInstallsAsGiven(c *Ctx, rule string) {
 		c.R.Discharge(rule, "SetMachine: the given state is installed as it is", c.P.Pos(sm.Pos()), fmt.Sprintf("%d writes reach the given state, all of them DefaultState's filling of a missing node name or bindings, or the timers machine's reference to the crew's timers", total))
 	}
 }
+
+// c03NoRepeatedResult: binding sets that are appended to a result inside a
+// loop are values of that iteration.  An append whose appended bindings (a
+// Bindings map or a slice of them) are defined outside the innermost loop
+// around it puts the same map into the result once per iteration: the caller
+// gets several "independent" results that are one map.
+func c03NoRepeatedResult(c *Ctx, rule string, fns []*ssa.Function) {
+	holdsBindings := func(t types.Type) bool {
+		for i := 0; i < 3; i++ {
+			if isBindingsT(t) {
+				return true
+			}
+			sl, ok := t.Underlying().(*types.Slice)
+			if !ok {
+				return false
+			}
+			t = sl.Elem()
+		}
+		return false
+	}
+	n := 0
+	var bad []string
+	for _, f := range fns {
+		if prog.PkgOf(f) != "match" {
+			continue
+		}
+		loops := flow.Loops(f)
+		ssau.Instrs(f, func(in ssa.Instruction) {
+			cl, ok := in.(*ssa.Call)
+			if !ok {
+				return
+			}
+			b, isB := cl.Common().Value.(*ssa.Builtin)
+			if !isB || b.Name() != "append" || len(cl.Common().Args) < 2 {
+				return
+			}
+			var L *flow.Loop
+			for _, l := range loops {
+				if l.Blocks[cl.Block()] && (L == nil || len(l.Blocks) < len(L.Blocks)) {
+					L = l
+				}
+			}
+			if L == nil {
+				return
+			}
+			arg := cl.Common().Args[1]
+			var vals []ssa.Value
+			if sl, isSl := arg.(*ssa.Slice); isSl {
+				if _, isAl := sl.X.(*ssa.Alloc); isAl {
+					vals = sliceElems(arg, []*ssa.Function{f}) // append(acc, x)
+				}
+			}
+			if len(vals) == 0 {
+				vals = []ssa.Value{arg} // append(acc, xs...)
+			}
+			for _, v := range vals {
+				if !holdsBindings(v.Type()) {
+					continue
+				}
+				n++
+				if _, isC := v.(*ssa.Const); isC {
+					continue
+				}
+				vi, isInstr := v.(ssa.Instruction)
+				if isInstr && L.Blocks[vi.Block()] {
+					continue
+				}
+				bad = append(bad, fmt.Sprintf("%s appends binding sets that do not change from one iteration to the next (%s)", fname(f), c.pos(in)))
+			}
+		})
+	}
+	if n == 0 {
+		c.R.Break(rule + ": no append of binding sets inside a loop found in the matcher")
+		return
+	}
+	if len(bad) > 2 {
+		bad = bad[:2]
+	}
+	c.R.Check(len(bad) == 0, rule, "match: a binding set enters a result once", "match/match.go", fmt.Sprintf("%d appends of binding sets inside loops, each of a value of that iteration", n), strings.Join(bad, "; ")+": the same map is handed out several times, so results that look independent are one map (a caller that extends one extends them all)")
+}
